@@ -875,6 +875,8 @@ def check(ctx, rep):
     from . import c10 as _c10, _share as _sh
     _sh.share(ctx, rep, _c10, ('roots.registration-released-on-every-exit',),
               'a stale collector root that was a temporary string makes the next garbage collection end in KeyError')
+    from . import c33 as _c33
+    _sh.share(ctx, rep, _c33, ('colour.within-mode-range',), 'a drawing colour outside the byte range ends in ValueError when the pixel is written')
     check_e9(ctx, rep)
     check_e10(ctx, rep)
     check_e11(ctx, rep)
